@@ -8,7 +8,7 @@ import json
 from vlib import core
 from props import c03, c19draw
 
-HEADER = ('From Coq Require Import List NArith Bool.\nFrom DV Require Import C19.Model.\nImport ListNotations.\nOpen Scope N_scope.\n')
+HEADER = ('From Coq Require Import List NArith Bool.\nFrom DV Require Import C19.Model C19.Proofs.\nImport ListNotations.\nOpen Scope N_scope.\n')
 
 MARKER = {'UNIQUE': 'U', 'ANY': 'A', 'PRIORITY': 'P', 'FIRST': 'F', 'RULE ORDER': 'R', 'OUTPUT ORDER': 'O', 'COLLECT': 'C',
           'C#': 'C#', 'C+': 'C+', 'C<': 'C<', 'C>': 'C>'}
@@ -160,7 +160,7 @@ def coq_table19(exp, opts):
 
     def code(s):
         if s not in codes:
-            codes[s] = len(codes) + 1
+            codes[s] = len(codes) + 100          # below the number texts (90000 + k) and not the marker text 77
         return codes[s]
     multi = len(exp['outputs']) > 1
     ins = '[' + '; '.join('(%d, %d)' % (code(e), code(v) if v is not None else 0) for e, v in exp['inputs']) + ']'
@@ -259,7 +259,7 @@ def run(ctx):
     ctx.proof_gate()
     ctx.build_harness()
     rng = ctx.rng
-    n = ctx.pick(1200, 40000)
+    n = ctx.pick(800, 40000)
     cases = []
     while len(cases) < n:
         t, opts = gen_case(rng)
@@ -274,9 +274,10 @@ def run(ctx):
     terms, decoders = [], []
     for (t, opts, spec, text, exp, tp) in cases:
         term, codes = coq_table19(exp, opts)
-        terms.append('let t := %s in (recognize_horizontal (layout_h t), layout_h t, hdr t)' % term)
+        terms.append('let t := %s in (recognize_horizontal (layout_h t), layout_h t, hdr t, recognize_plane sw_parse_hp sw_parse_num (%s 77 sw_num_text t))'
+                     % (term, 'layout_rows' if opts['orientation'] == 'row' else 'layout_columns'))
         decoders.append({v: k for k, v in codes.items()})
-    model = ctx.run_model(HEADER, terms, shard_size=ctx.pick(80, 400))
+    model = ctx.run_model(HEADER, terms, shard_size=ctx.pick(50, 400))
     hist = {}
     for (t, opts, spec, text, exp, tp), r, x, m, dec in zip(cases, rec, xml, model, decoders):
         ctx.evaluations += 1
@@ -300,7 +301,7 @@ def run(ctx):
                           case, impl=r['ok'])
             continue
         # the plane-level model on the same table: its layout is the plane the code built, its recognition gives the same fields
-        m_fields, m_plane, m_hdr = m
+        m_fields, m_plane, m_hdr, m_whole = m
         if hasattr(m_fields, 'name') and m_fields.name == 'Some':
             mf = model_fields(m_fields.args[0], dec)
             badm = [k for k in mf if r['ok'].get(k) != mf[k]]
@@ -308,6 +309,11 @@ def run(ctx):
             badm = ['(model rejects the plane)']
         got_plane = canon_plane(parse_dump(r.get('plane') or ''), m_hdr)
         want_plane = canon_plane(model_plane(m_plane), m_hdr)
+        # orientation, marker and rule numbers: the model of recognize_orientation on the whole laid-out plane
+        whole_ok = (hasattr(m_whole, 'name') and m_whole.name == 'Some' and
+                    m_whole.args[0][0].name == ('AsRow' if r['ok']['orientation'] == 'row' else 'AsColumn') and m_whole.args[0][2] == len(r['ok']['rules']))
+        if not whole_ok:
+            badm = badm or ['(orientation / rule count: model %s)' % (m_whole,)]
         if badm or got_plane != want_plane:
             ctx.corr_broken('recognizer.rs/plane.rs vs coq/C19/Model.v (%s)' % (badm[0] if badm else 'plane differs from layout_h'),
                             {'text': text}, got_plane if not badm else r['ok'].get(badm[0]), want_plane if not badm else None)
@@ -328,13 +334,13 @@ def run(ctx):
             ctx.sample({'drawing': text.split('\n'), 'recognised': r['ok']})
     # ---- single-character corruptions and arbitrary text: Ok or Err, never a panic
     noisy = []
-    for (t, opts, spec, text, exp, tp) in cases[:ctx.pick(1000, 20000)]:
-        for _ in range(ctx.pick(10, 12)):
+    for (t, opts, spec, text, exp, tp) in cases[:ctx.pick(600, 20000)]:
+        for _ in range(ctx.pick(8, 12)):
             txt, i, c = corrupt(rng, text)
             noisy.append(({'kind': 'corruption', 'position': i, 'char': c, 'calls': [c03.ctx_text(t, tp[0])] if tp else []}, txt))
-    for _ in range(ctx.pick(3000, 100000)):
+    for _ in range(ctx.pick(2000, 100000)):
         noisy.append(({'kind': 'arbitrary', 'calls': []}, random_text(rng)))
-    for _ in range(ctx.pick(6000, 200000)):
+    for _ in range(ctx.pick(4000, 200000)):
         (t, opts, spec, text, exp, tp) = rng.choice(cases)
         noisy.append(({'kind': 'mangled', 'calls': [c03.ctx_text(t, tp[0])] if tp else []}, mangle(rng, text)))
     res = ctx.run_impl('recognize', [{'text': txt, 'calls': meta['calls']} for meta, txt in noisy], shards=16)
@@ -349,8 +355,8 @@ def run(ctx):
     return ctx.finish(
         rule='tables of the C03 fragment (1..5 inputs, 1..3 outputs, 0..2 annotations, 1..8 rules, all 11 hit-policy markers) drawn in both orientations with every '
              'combination of information item name / allowed values / output label / annotations, random cell widths, alignments, multi-line cells, merged input entries; '
-             'every field compared with the drawing, evaluation compared with the XML equivalent on 4 tuples; then 8 single-character corruptions of 400 drawings and 3000 '
-             'arbitrary texts must give Ok or Err; non-trivial = distinct layout shapes',
+             'every field compared with the drawing, evaluation compared with the XML equivalent on 4 tuples; then 8 single-character corruptions of each of 600 drawings, 2000 arbitrary texts '
+             'and 4000 mangled drawings must give Ok or Err; non-trivial = distinct layout shapes',
         extra_cov={'exhaustive': False, 'drawings': len(cases), 'distribution': hist, 'noise_outcomes': outcome},
         assumptions=['cell texts contain no box-drawing characters', 'allowed values are drawn for all clauses or for none (the text format has one values line)',
                      'in a rules-as-columns table the first input expression is not a hit-policy marker and output names are not numbers (the recogniser would take them for the marker / rule numbers)'],
@@ -380,11 +386,13 @@ def replay(ctx, path):
 
 
 MANIFEST = dict(
-    technique='Coq model of the plane-level recogniser with a bounded round-trip theorem, plus correspondence on drawn Unicode text (drawing -> recogniser -> fields, plane, evaluation vs DMN XML) and corruption/arbitrary-text robustness runs',
-    text='coq/Props/C19.v: recognize_horizontal (layout_h t) = fields_of t and pivot(pivot(layout_h t)) = layout_h t for every table shape with 1..5 inputs, 1..3 outputs, 0..2 annotations, 1..8 rules, '
-         'with/without output label and allowed values (finite sweep inside the kernel, statement named _partial: unbounded sizes and coinciding texts are not covered), general lemmas on cell pivot, crossing position and block queries. '
-         'Every run DRAWS >= 1200 tables (both orientations, all combinations of information item name / values / label / annotations, random widths, alignments, multi-line and merged cells), requires every recognised field to equal the drawn text block, '
-         'the built plane to equal the model layout, the recognised fields to equal the model recognition, and the evaluation to equal that of the equivalent DMN XML; 10k single-character corruptions and 9k arbitrary/mangled texts must return Ok or Err (catch_unwind / process death observed).',
+    technique='Coq model of the plane-level recogniser with unbounded round-trip theorems, plus correspondence on drawn Unicode text (drawing -> recogniser -> fields, plane, orientation, evaluation vs DMN XML) and corruption/arbitrary-text robustness runs',
+    text='coq/Props/C19.v (closed under the global context): for EVERY well-shaped table - any numbers of inputs, outputs, annotations, rules, any texts, with/without output label and allowed values - '
+         'recognize_horizontal (layout_h t) = fields_of t (C19_plane_roundtrip_h); with the marker / rule-number column the whole plane of a rules-as-rows drawing is read back including orientation, hit policy and rule count '
+         '(C19_plane_roundtrip_rows, abstract text parsers); pivot is an involution on rectangular planes and a rules-as-columns plane normalises to the same plane (C19_pivot_involutive, C19_columns_normalise); '
+         'every recognised shape passes builder.rs size validation (C19_size_validation_complete). Marker / rule-number detection for rules-as-columns is proved for the bounded shapes only (_partial, finite sweep). '
+         'Every run DRAWS >= 800 tables (both orientations, all combinations of information item name / values / label / annotations, random widths, alignments, multi-line and merged cells) and requires every recognised field to equal the drawn text block, '
+         'the built plane to equal the model layout, orientation / rule count / fields to equal the model recognition, and the evaluation to equal that of the equivalent DMN XML; about 5k single-character corruptions and 6k arbitrary/mangled texts must return Ok or Err.',
     category='proof',
-    note='PARTIAL: the character grid -> plane step (canvas.rs: region flood fill, double-line crossings) is not modelled, it is sampled by the drawings; the round-trip theorem is bounded by the property\'s own quantifier bounds. '
-         'Orientation detection (hit-policy marker / rule-number line) is exercised by the drawings only. One panic of the pinned commit was repaired (fix: non-rectangular plane).')
+    note='PARTIAL: the character grid -> plane step (canvas.rs: region flood fill, double-line crossings) is not modelled, it is sampled by the drawings; rules-as-columns marker/rule-number detection only bounded '
+         '(needs: first input expression is not a marker text, first output name is not a number). One panic of the pinned commit was repaired (fix: non-rectangular plane).')
